@@ -276,7 +276,42 @@ def case_pairing_api(p):
     return out
 
 
-CASES = {"lowlevel": case_lowlevel, "pairing_api": case_pairing_api}
+def case_reconnect_host(p):
+    """The accessory advertises two addresses; the first connection lands on one, after a drop the next lands on the other:
+    every request must carry the Host header of the connection it is sent on."""
+    hosts = p["hosts"]
+    rig = IpRig(seed=p.get("seed", 0), hosts=hosts)
+    out = []
+    n = 0
+    try:
+        rig.acc.handler = std_handler()
+        order = list(p["order"])
+        rig.net.auto = lambda att: ("ok", order.pop(0) if order else att["hosts"][0])
+        rig.connect()
+        for k in range(len(p["order"])):
+            conn = rig.net.conns[-1]
+            rig.run(rig.pairing.get_characteristics([(1, 9)]))
+            rig.run(rig.pairing.put_characteristics([(1, 9, True)]))
+            for secure, method, target, headers, body, raw in conn.session.requests:
+                n += 1
+                det = {"api": "reconnect_host", "connected_host": conn.host, "hosts": hosts, "round": k, "target": target}
+                ctype = "application/pairing+tlv8" if target == "/pair-verify" else "application/hap+json"
+                out += judge_raw(raw, method, target, conn.host, body, ctype, det)
+            if out:
+                break
+            if k + 1 < len(p["order"]):
+                conn.peer_close()
+                rig.loop.run_until_idle()
+                rig.run(rig.pairing._ensure_connected())
+                if rig.net.conns[-1] is conn:
+                    out.append(("harness:no-reconnect", {}))
+    finally:
+        rig.close()
+    p["_n"] = n
+    return out
+
+
+CASES = {"lowlevel": case_lowlevel, "pairing_api": case_pairing_api, "reconnect_host": case_reconnect_host}
 
 
 def _work(item, seed, tier):
@@ -313,12 +348,20 @@ def run(ctx):
                 calls.append({"api": "post_json", "target": t, "arg": o})
         for items in ([(6, b"\x01"), (0, b"\x05")], [(6, b"\x01"), (3, bytes(range(256)) * 2)], [(1, b"\r\n")]):
             calls.append({"api": "post_tlv", "target": "/pairings", "arg": items})
+        # requests longer than one (1024 byte) and two encrypted frames: still one transport call
+        for n in (1000, 1024, 1500, 2048, 3000, 5000):
+            calls.append({"api": "put", "target": "/characteristics", "arg": b"x" * n})
+            calls.append({"api": "put_json", "target": "/characteristics", "arg": {"characteristics": [{"aid": 1, "iid": i, "value": "v" * 20} for i in range(n // 50)]}})
+        calls.append({"api": "get", "target": "/characteristics?id=" + ",".join(f"1.{i}" for i in range(400))})
         for i in range(0, len(calls), 25):
             work.append(("lowlevel", {"host": host, "calls": calls[i : i + 25]}))
         work.append(("pairing_api", {"host": host, "max_ids": 3 if quick else 5}))
+    for hosts in (["fd00::1:2", "192.168.1.5"], ["192.168.1.5", "fe80::1%eth0"], ["192.168.1.5", "192.168.1.6"]):
+        for order in ([hosts[0], hosts[1]], [hosts[1], hosts[0], hosts[1]]):
+            work.append(("reconnect_host", {"host": hosts[0], "hosts": hosts, "order": order}))
     ctx.pmap(_work, work)
     ctx.exhaustive = True
     ctx.bounds.update(hosts=HOSTS, targets=targets, json_objects=len(OBJS), id_subsets_up_to=3 if quick else 5)
-    for s in ("lowlevel", "pairing_api", "host:v4", "host:v6", "host:scoped"):
+    for s in ("lowlevel", "pairing_api", "reconnect_host", "host:v4", "host:v6", "host:scoped"):
         ctx.require(ctx.acc.symbols[s] > 0, f"{s} never ran")
     ctx.require(ctx.acc.extra["requests_checked"] > 200, "too few requests checked")
